@@ -146,9 +146,9 @@ pub fn header_ex_error(kind: &str) -> P2pError {
         "not_found" => P2pError::HeaderEx(E::HeaderNotFound),
         "invalid_response" => P2pError::HeaderEx(E::InvalidResponse),
         "invalid_request" => P2pError::HeaderEx(E::InvalidRequest),
-        "outbound_failure" => {
-            P2pError::HeaderEx(E::OutboundFailure(libp2p::request_response::OutboundFailure::Timeout))
-        }
+        "outbound_failure" => P2pError::HeaderEx(E::OutboundFailure(
+            libp2p::request_response::OutboundFailure::Timeout,
+        )),
         "timeout" => P2pError::RequestTimedOut,
         "worker_died" => P2pError::WorkerDied,
         _ => P2pError::HeaderEx(E::OutboundFailure(
@@ -244,7 +244,10 @@ impl VDaser {
         (VDaser(Arc::new(daser)), handle)
     }
     pub async fn want_to_prune(&self, height: u64) -> Result<bool, String> {
-        self.0.want_to_prune(height).await.map_err(|e| e.to_string())
+        self.0
+            .want_to_prune(height)
+            .await
+            .map_err(|e| e.to_string())
     }
     pub async fn update_highest_prunable_block(&self, value: u64) -> Result<(), String> {
         self.0
